@@ -46,6 +46,14 @@ pub enum CborError {
     BadSimple(usize),
 }
 
+impl CborError {
+    pub fn offset(&self) -> usize {
+        match self {
+            CborError::Truncated(o) | CborError::Reserved(o) | CborError::UnexpectedBreak(o) | CborError::BadChunk(o) | CborError::Trailing(o) | CborError::TooDeep(o) | CborError::LengthTooLarge(o) | CborError::BadSimple(o) => *o,
+        }
+    }
+}
+
 impl fmt::Display for CborError {
     fn fmt(&self, f: &mut fmt::Formatter) -> fmt::Result {
         write!(f, "{:?}", self)
@@ -71,6 +79,9 @@ pub fn min_width(v: u64) -> u8 {
 struct Rd<'a> {
     b: &'a [u8],
     p: usize,
+    /// mirror of a leniency found in the library under test: a break inside a definite-length
+    /// array / map ends the container early (used only to CLASSIFY malformed inputs)
+    lenient_break: bool,
 }
 
 impl<'a> Rd<'a> {
@@ -173,12 +184,16 @@ impl<'a> Rd<'a> {
             },
             4 => match arg {
                 Some(n) => {
-                    if n > (self.b.len() - self.p) as u64 {
+                    if n > (self.b.len() - self.p) as u64 && !self.lenient_break {
                         return Err(CborError::Truncated(start));
                     }
-                    let mut items = Vec::with_capacity(n as usize);
+                    let mut items = Vec::with_capacity((n as usize).min(1024));
                     for _ in 0..n {
                         if self.peek_break() {
+                            if self.lenient_break {
+                                self.p += 1;
+                                break;
+                            }
                             return Err(CborError::UnexpectedBreak(self.p));
                         }
                         items.push(self.item(depth + 1)?);
@@ -199,12 +214,16 @@ impl<'a> Rd<'a> {
             },
             5 => match arg {
                 Some(n) => {
-                    if n > ((self.b.len() - self.p) / 2) as u64 {
+                    if n > ((self.b.len() - self.p) / 2) as u64 && !self.lenient_break {
                         return Err(CborError::Truncated(start));
                     }
-                    let mut entries = Vec::with_capacity(n as usize);
+                    let mut entries = Vec::with_capacity((n as usize).min(1024));
                     for _ in 0..n {
                         if self.peek_break() {
+                            if self.lenient_break {
+                                self.p += 1;
+                                break;
+                            }
                             return Err(CborError::UnexpectedBreak(self.p));
                         }
                         let k = self.item(depth + 1)?;
@@ -262,7 +281,7 @@ impl<'a> Rd<'a> {
 
 /// parses exactly one data item spanning the whole input
 pub fn parse_document(b: &[u8]) -> Result<Node, CborError> {
-    let mut r = Rd { b, p: 0 };
+    let mut r = Rd { b, p: 0, lenient_break: false };
     let n = r.item(0)?;
     if r.p != b.len() {
         return Err(CborError::Trailing(r.p));
@@ -270,9 +289,22 @@ pub fn parse_document(b: &[u8]) -> Result<Node, CborError> {
     Ok(n)
 }
 
+/// true if the input is NOT well-formed but becomes parseable when a break inside a
+/// definite-length array / map is read as "end of container"
+pub fn malformed_only_by_break_in_definite(b: &[u8]) -> bool {
+    if parse_document(b).is_ok() {
+        return false;
+    }
+    let mut r = Rd { b, p: 0, lenient_break: true };
+    match r.item(0) {
+        Ok(_) => r.p == b.len(),
+        Err(_) => false,
+    }
+}
+
 /// parses one data item at the start of the input; returns it and the bytes consumed
 pub fn parse_prefix(b: &[u8]) -> Result<(Node, usize), CborError> {
-    let mut r = Rd { b, p: 0 };
+    let mut r = Rd { b, p: 0, lenient_break: false };
     let n = r.item(0)?;
     Ok((n, r.p))
 }
@@ -299,7 +331,7 @@ pub fn scan(b: &[u8]) -> ScanFacts {
 }
 
 fn scan_items(b: &[u8], f: &mut ScanFacts, nest: usize) {
-    let mut r = Rd { b, p: 0 };
+    let mut r = Rd { b, p: 0, lenient_break: false };
     while r.p < b.len() {
         if scan_item(&mut r, f, 0, nest).is_err() {
             break;
